@@ -34,9 +34,14 @@ type RenderContext struct {
 	blockChain   map[string][][]Node // overriding definitions of each block, most-derived first
 	currentChain [][]Node            // all definitions of the block being rendered, most-derived first
 	blockDepth   int                 // which definition of currentChain is being rendered
+	// The template each of those definitions was written in (relative names in a block body
+	// resolve against the template that wrote it), parallel to blockChain / currentChain
+	blockOrigins   map[string][]*Template
+	currentOrigins []*Template
 
 	// For imported macros: the macros of their defining template, so that they can call their siblings
-	macroScopes map[*MacroNode]map[string]Node
+	macroScopes  map[*MacroNode]map[string]Node
+	macroOrigins map[*MacroNode]*Template // ... and the template that defines them
 }
 
 // contextMapPool is a pool for the maps used in RenderContext
@@ -120,6 +125,9 @@ func NewRenderContext(env *Environment, context map[string]interface{}, engine *
 	ctx.currentBlock = nil
 	ctx.blockChain = nil
 	ctx.macroScopes = nil
+	ctx.macroOrigins = nil
+	ctx.blockOrigins = nil
+	ctx.currentOrigins = nil
 	ctx.currentChain = nil
 	ctx.blockDepth = 0
 	ctx.parent = nil
@@ -145,6 +153,9 @@ func (ctx *RenderContext) Release() {
 	ctx.currentBlock = nil
 	ctx.blockChain = nil
 	ctx.macroScopes = nil
+	ctx.macroOrigins = nil
+	ctx.blockOrigins = nil
+	ctx.currentOrigins = nil
 	ctx.currentChain = nil
 
 	// Save the maps so we can return them to their respective pools
@@ -207,9 +218,21 @@ func copyBlockChain(chain map[string][][]Node) map[string][][]Node {
 	return out
 }
 
+// copyBlockOrigins copies the per-block lists of defining templates
+func copyBlockOrigins(origins map[string][]*Template) map[string][]*Template {
+	if len(origins) == 0 {
+		return nil
+	}
+	out := make(map[string][]*Template, len(origins))
+	for name, templates := range origins {
+		out[name] = append([]*Template(nil), templates...)
+	}
+	return out
+}
+
 // rememberMacroScope records, for macros imported from another template, the macros defined
 // next to them, so that an imported macro can call its siblings
-func (ctx *RenderContext) rememberMacroScope(scope map[string]Node) {
+func (ctx *RenderContext) rememberMacroScope(scope map[string]Node, origin *Template) {
 	siblings := make(map[string]Node, len(scope))
 	for name, macro := range scope {
 		siblings[name] = macro
@@ -220,6 +243,10 @@ func (ctx *RenderContext) rememberMacroScope(scope map[string]Node) {
 	for _, macro := range scope {
 		if macroNode, ok := macro.(*MacroNode); ok {
 			ctx.macroScopes[macroNode] = siblings
+			if ctx.macroOrigins == nil {
+				ctx.macroOrigins = make(map[*MacroNode]*Template)
+			}
+			ctx.macroOrigins[macroNode] = origin
 		}
 	}
 }
@@ -229,6 +256,16 @@ func (ctx *RenderContext) macroScope(macro *MacroNode) map[string]Node {
 	for c := ctx; c != nil; c = c.parent {
 		if scope, ok := c.macroScopes[macro]; ok {
 			return scope
+		}
+	}
+	return nil
+}
+
+// macroOrigin finds the template that defines an imported macro, looking through parent contexts
+func (ctx *RenderContext) macroOrigin(macro *MacroNode) *Template {
+	for c := ctx; c != nil; c = c.parent {
+		if origin, ok := c.macroOrigins[macro]; ok {
+			return origin
 		}
 	}
 	return nil
@@ -385,6 +422,9 @@ func (ctx *RenderContext) Clone() *RenderContext {
 	newCtx.currentChain = nil
 	newCtx.blockDepth = 0
 	newCtx.macroScopes = nil
+	newCtx.macroOrigins = nil
+	newCtx.blockOrigins = copyBlockOrigins(ctx.blockOrigins)
+	newCtx.currentOrigins = nil
 	newCtx.parent = ctx
 	newCtx.inParentCall = false
 
